@@ -8,8 +8,10 @@ import (
 	"io"
 	"math/big"
 
+	"github.com/bronlabs/bron-crypto/pkg/base/datastructures/hashset"
 	"github.com/bronlabs/bron-crypto/pkg/base/serde"
 	"github.com/bronlabs/bron-crypto/pkg/mpc/session"
+	"github.com/bronlabs/bron-crypto/pkg/mpc/sharing"
 	"github.com/bronlabs/bron-crypto/pkg/proofs/sigma"
 	"github.com/bronlabs/bron-crypto/pkg/proofs/sigma/compiler"
 	"github.com/bronlabs/bron-crypto/pkg/proofs/sigma/compiler/fiatshamir"
@@ -17,7 +19,6 @@ import (
 	"github.com/bronlabs/bron-crypto/pkg/proofs/sigma/compiler/randfischlin"
 	"github.com/bronlabs/bron-crypto/pkg/proofs/sigma/compiler/zk"
 	"verif/harness/vlib"
-	"verif/harness/vlib/proto"
 )
 
 var allCompilers = []compiler.Name{fiatshamir.Name, fischlin.Name, randfischlin.Name}
@@ -418,8 +419,30 @@ func (c ctxSpec) clone() ctxSpec {
 	return d
 }
 
-func (c ctxSpec) build(id proto.ID) (*session.Context, error) {
-	ctxs, err := proto.Contexts([]proto.ID{proverID, verifierID}, c.Seed, "c08")
+// contexts builds the consistent session contexts of the two parties directly from a seed, the
+// way vlib/proto.Contexts does (that package is not imported: it instantiates every DKG and
+// dominates the build of a scratch worktree): one common seed and one pairwise seed from the
+// harness PRNG, handed to session.NewContext.
+func contexts(seed uint64) (map[sharing.ID]*session.Context, error) {
+	prng := vlib.NewPRNG(seed, "ctx/c08")
+	common, pair := make([]byte, 64), make([]byte, 64)
+	_, _ = io.ReadFull(prng, common)
+	_, _ = io.ReadFull(prng, pair)
+	quorum := hashset.NewComparable[sharing.ID](proverID, verifierID).Freeze()
+	out := map[sharing.ID]*session.Context{}
+	for _, id := range []sharing.ID{proverID, verifierID} {
+		other := sharing.ID(proverID + verifierID - int(id))
+		c, err := session.NewContext(id, quorum, common, map[sharing.ID][]byte{other: pair})
+		if err != nil {
+			return nil, fmt.Errorf("session.NewContext(%d): %w", id, err)
+		}
+		out[id] = c
+	}
+	return out, nil
+}
+
+func (c ctxSpec) build(id sharing.ID) (*session.Context, error) {
+	ctxs, err := contexts(c.Seed)
 	if err != nil {
 		return nil, err
 	}
